@@ -717,23 +717,34 @@ example : ftrlWeights (⟨1, 1, 1 / 2, 1⟩ : FtrlHp Rat) ⟨[-1 / 2, 3 / 2, 1 /
 /-! ## the glue around the steps: `Option` model in, guards, the caller's loop -/
 
 /-- **naive Bayes, the caller's loop** `model = params.fit_with(model, &batch)?`: when every batch
-passes the guard of the code (at least one feature column, at least one row — otherwise `max()`
-errors) the loop returns one model per batch and its last model is the step folded over the history
-from the incoming model (`None` = empty map), i.e. `gnbRun` / `mnbRun` -/
-theorem nb_fit_history_is_run {σ : Type} (step : σ → Batch α → σ) (e : σ) (p : Nat)
-    (hist : List (Batch α)) (hg : ∀ b ∈ hist, nbGuard p b = true) (model : Option σ) :
-    ∃ sts, nbFitHistory step e p model hist = some sts ∧ sts.length = hist.length ∧
+passes the guard of the code (Gaussian: at least one feature column and at least one row — otherwise
+`max()` errors; multinomial: no error path, guard constantly true) the loop returns one model per
+batch and its last model is the step folded over the history from the incoming model (`None` = empty
+map), i.e. `gnbRun` / `mnbRun` -/
+theorem nb_fit_history_is_run {σ : Type} (step : σ → Batch α → σ) (e : σ) (guard : Batch α → Bool)
+    (hist : List (Batch α)) (hg : ∀ b ∈ hist, guard b = true) (model : Option σ) :
+    ∃ sts, nbFitHistory step e guard model hist = some sts ∧ sts.length = hist.length ∧
       sts.getLastD (model.getD e) = hist.foldl step (model.getD e) :=
-  nbFitHistory_ok step e p hist hg model
+  nbFitHistory_ok step e guard hist hg model
+
+/-- **multinomial `fit_with` never errors**, and an empty batch leaves every class as it was -/
+theorem mnb_fit_never_errors [Transc α] (a : α) (p : Nat) (hist : List (Batch α))
+    (model : Option (MState α)) :
+    (∃ sts, nbFitHistory (mnbStep a p) [] (fun _ => true) model hist = some sts ∧
+      sts.length = hist.length) ∧
+    ∀ (st : MState α) (c : Nat), (lookup c (mnbStep a p st [])).map mProj = (lookup c st).map mProj := by
+  obtain ⟨sts, h1, h2, _⟩ := nbFitHistory_ok (mnbStep a p) [] (fun _ => true) hist (by simp) model
+  exact ⟨⟨sts, h1, h2⟩, fun st c => mnbStep_absent_class a p st [] c (by simp [rowsOf])⟩
 
 /-- **… and a batch that fails the guard turns the whole loop into the error** -/
-theorem nb_fit_history_guard {σ : Type} (step : σ → Batch α → σ) (e : σ) (p : Nat)
-    (hist : List (Batch α)) (hg : ∃ b ∈ hist, nbGuard p b = false) (model : Option σ) :
-    nbFitHistory step e p model hist = none :=
-  nbFitHistory_err step e p hist hg model
+theorem nb_fit_history_guard {σ : Type} (step : σ → Batch α → σ) (e : σ) (guard : Batch α → Bool)
+    (hist : List (Batch α)) (hg : ∃ b ∈ hist, guard b = false) (model : Option σ) :
+    nbFitHistory step e guard model hist = none :=
+  nbFitHistory_err step e guard hist hg model
 
-example : (nbFitHistory (gnbStep (0 : Rat) 1) [] 1 none [[([1], 7)], [([2], 9)]]).map (·.length) = some 2 ∧
-    nbFitHistory (gnbStep (0 : Rat) 1) [] 1 none [[([1], 7)], []] = none ∧
+example : (nbFitHistory (gnbStep (0 : Rat) 1) [] (nbGuard 1) none [[([1], 7)], [([2], 9)]]).map (·.length) = some 2 ∧
+    (nbFitHistory (gnbStep (0 : Rat) 1) [] (nbGuard 1) none [[([1], 7)], []]).isNone = true ∧
+    (nbFitHistory (mnbStep (1 : Rat) 1) [] (fun _ => true) none [[([1], 7)], []]).map (·.length) = some 2 ∧
     (∀ b ∈ ([[([1], 7)], [([2], 9)]] : List (Batch Rat)), nbGuard 1 b = true) := by decide +kernel
 
 /-- **k-means, the caller's loop** (`Ok(m) | Err(NotConverged(m)) => Some(m)`) is the trace from the
